@@ -1,9 +1,7 @@
-import re
 import string
-import functools
 from typing import Any, Union
 
-from flamapy.core.models.ast import ASTOperation
+from flamapy.core.models.ast import ASTOperation, Node
 from flamapy.core.transformations import ModelToText
 from flamapy.metamodels.fm_metamodel.models import (
     Constraint,
@@ -149,18 +147,25 @@ class UVLWriter(ModelToText):
         return result
 
     @staticmethod
-    def _substitute_operator(str_constraint: str,
-                             operator: ASTOperation,
-                             new_operator: str) -> str:
-        return re.sub(rf"\b{operator.value}\b", new_operator, str_constraint)
+    def serialize_constraint(ctc: Constraint) -> str:
+        return UVLWriter._serialize_node(ctc.ast.root)
 
     @staticmethod
-    def serialize_constraint(ctc: Constraint) -> str:
-        str_constraint = ctc.ast.pretty_str()
-        return functools.reduce(lambda acc, op: UVLWriter._substitute_operator(acc,
-                                                                               op,
-                                                                               UVL_OPERATORS[op]),
-                                ASTOperation, str_constraint)
+    def _serialize_node(node: Node, nested: bool = False) -> str:
+        """UVL text of an expression tree, laid out like Node.pretty_str (binary sub-expressions in
+        parentheses) but built from the tree, so that names are quoted by this writer's rules and
+        are never mistaken for operators."""
+        if not node.is_op():
+            return safename(node.data) if isinstance(node.data, str) else str(node.data)
+        operator = UVL_OPERATORS[node.data]
+        if node.is_unary_op():
+            return f'{operator} {UVLWriter._serialize_node(node.left, True)}'
+        if node.is_aggregate_op():
+            operands = [UVLWriter._serialize_node(n, True) for n in (node.left, node.right) if n is not None]
+            return f'{operator}({", ".join(operands)})'
+        result = (f'{UVLWriter._serialize_node(node.left, True)} {operator} '
+                  f'{UVLWriter._serialize_node(node.right, True)}')
+        return f'({result})' if nested else result
 
 
 def safename(name: str) -> str:
